@@ -58,6 +58,12 @@ uint32_t vp_c09_nfix(void) { return VP_NFIX; }
 uint32_t vp_c09_sendfix(void) { return VP_SENDFIX; }
 /* error condition named inside <failed/> (QXmppStanza.cpp is not linked): irrelevant for C09 - any optional<Condition> (value 0..21 in the low word, engaged flag in bit 32) */
 uint64_t _ZN5QXmpp7Private19conditionFromStringERK7QString(char *s) { uint8_t has = vp_bool(); uint32_t c = vp_u32(); ASSUME(c <= 21); return has ? ((uint64_t)1 << 32) | c : 0; }
+/* task shadow: dropping the last reference to a promise/task state only reclaims memory (nobody can observe the state afterwards);
+   the model keeps the count and leaks the block, which spares symex the destructor of optional<variant<SendSuccess,QXmppError>>
+   on every (infeasible) "last reference" branch of a packet copy that is destroyed */
+#ifdef HAVE_T_struct_QXmpp__Private__ShadowState
+void _ZN5QXmpp7Private9ShadowRefISt7variantIJNS_11SendSuccessE10QXmppErrorEEE7releaseEv(char *self) { struct T_struct_QXmpp__Private__ShadowState *st = *(struct T_struct_QXmpp__Private__ShadowState**)self; ASSERT(st->f0 != 0, "C09 model: reference count underflow"); st->f0--; }
+#endif
 /* logging signal of QXmppLoggable (moc): no observable effect */
 void _ZN13QXmppLoggable10logMessageEN11QXmppLogger11MessageTypeERK7QString(char *self, uint32_t type, char *msg) { }
 #endif
